@@ -46,6 +46,14 @@ theorem c06_switches_reach_partial :
   have := List.all_eq_true.mp this c hc
   simpa [hk] using this
 
+/-- **Every cell is reached — full statement** (the rule switches dispatch on the generic schema types). -/
+theorem c06_switches_reach : c06_switches_reach_full := by
+  have h : (allFtys.all fun t => !switched t || (swCells t).all fun c => reaches tagFacts c.2 t) = true := by decide +kernel
+  intro t ht hs c hc
+  have := List.all_eq_true.mp h t ht
+  simp only [hs, Bool.not_true, Bool.false_or] at this
+  exact List.all_eq_true.mp this c hc
+
 /-- the static table knows the schema type of every switched field type -/
 theorem c06_switches_cover : ∀ t ∈ allFtys, switched t = true → (lookupTy tagFacts t).isSome = true := by
   have h : (allFtys.all fun t => !switched t || (lookupTy tagFacts t).isSome) = true := by decide +kernel
